@@ -1,9 +1,10 @@
 #!/bin/sh
-# Builds the framework from files on disk only (offline): tools, Lean project (all proofs), oracle.
+# Builds the framework from files on disk only (offline): tools, Lean project (all proofs), oracle and garble;
+# then warms the (optional, accelerator-only) build caches under /var/tmp/gv-cache for the flag sets the quick tiers use.
 set -e
 cd "$(dirname "$0")"
 python3 - <<'PY'
-import sys
+import sys, time
 sys.path.insert(0, ".")
 from gvlib import core
 core.build_tools()
@@ -15,5 +16,18 @@ g, err = core.build_garble()
 print("garble:", g, err[-500:] if not g else "")
 ok, failing, log = core.lake_build([])
 print(log[-2000:])
-sys.exit(0 if ok and o and g else 1)
+if not (ok and o and g):
+    sys.exit(1)
+# warm caches (best effort)
+try:
+    from gvlib import e2e
+    E = e2e.E2E("setup")
+    root = E.write_module("hello", {"go.mod": "module gv.test/hello\n\ngo 1.26\n", "main.go": "package main\n\nimport (\n\t\"fmt\"\n\t\"os\"\n\t\"strconv\"\n\t\"strings\"\n)\n\nfunc main() { fmt.Println(strings.Repeat(strconv.Itoa(len(os.Args)), 2)) }\n"})
+    for fl in ([], ["-literals", "-seed=o9WDTZ4CN4w"]):
+        t = time.time()
+        r = E.run_garble(fl, ["build", "-o", "out", "."], root)
+        print("warm", fl, r.returncode, round(time.time() - t, 1), r.stderr[-200:])
+    E.cleanup()
+except Exception as e:
+    print("cache warm-up skipped:", e)
 PY
